@@ -608,6 +608,24 @@ fn run_reuse(size: u64, reads: u32, trunc_to: u64, sink: &mut Sink) -> (Verdict,
         if o.data.len() as u64 > trunc_to || o.data != want[..o.data.len()] {
             return Ok(Some(("truncated-stale-or-wrong-bytes".into(), format!("after truncation to {} the stream delivered {} bytes before failing (equal to the old prefix: {})", trunc_to, o.data.len(), o.data == want[..o.data.len().min(want.len())]))));
         }
+        // the file gets its bytes back (same length, same content): a new stream on the same
+        // entity covers a complete file again and must deliver it
+        {
+            let mut f = File::options().write(true).open(&path).map_err(|e| e.to_string())?;
+            use std::io::Seek;
+            f.seek(std::io::SeekFrom::Start(0)).map_err(|e| e.to_string())?;
+            f.write_all(&want).map_err(|e| e.to_string())?;
+            f.sync_all().ok();
+        }
+        for (a, b) in [(0, size), (size / 2, size)] {
+            if a >= b {
+                continue;
+            }
+            let o = stream_read(&crf, a, b, None, &path);
+            if o.terminal != "end" || o.data != want[a as usize..b as usize] {
+                return Ok(Some(("restored-file-not-served".into(), format!("file truncated to {}, a stream failed, the file was written back completely; a new stream {}..{} on the same entity: terminal {}, {} bytes", trunc_to, a, b, o.terminal, o.data.len()))));
+            }
+        }
         Ok(None)
     });
     match r {
@@ -777,7 +795,7 @@ impl Prop for C18 {
         "fault_enumeration"
     }
     fn rule(&self, ctx: &Ctx) -> String {
-        format!("real temporary files of sizes {:?} (position-hash content) on a multi-thread tokio runtime. Per size: every range with start <= end over {{0, 1, 65535, 65536, 65537, 131071, 131072, size-1, size}} x read cap {{none, 65536, 4097, 1}} (hook: short reads); truncation to {{0, start, start+1, 65535, 65536, end-1}} before poll 0, 1 and 2; the same through serve() with a Range header; metadata/ETag histories (two instances, length +1, mtime +-1ns / +-1s, replacement by a same-size same-mtime copy); construction on a directory, /dev/null, a FIFO and a socket, and with metadata describing a socket / symlink / directory; one entity streamed 1..6 times and then truncated (files of 1 .. 200001 bytes); sequences of ranges on one entity beginning with the tail of the file, and tail-first multi-range requests through serve; sparse files of 70 MiB - 2 GiB streamed completely (thousands of consecutive full reads); 16 tasks streaming unaligned ranges of one shared entity concurrently. Non-trivial = distinct case judged (bytes compared, or truncation answered by an error within range-length+8 ready polls)", c18_sizes(ctx))
+        format!("real temporary files of sizes {:?} (position-hash content) on a multi-thread tokio runtime. Per size: every range with start <= end over {{0, 1, 65535, 65536, 65537, 131071, 131072, size-1, size}} x read cap {{none, 65536, 4097, 1}} (hook: short reads); truncation to {{0, start, start+1, 65535, 65536, end-1}} before poll 0, 1 and 2; the same through serve() with a Range header; metadata/ETag histories (two instances, length +1, mtime +-1ns / +-1s, replacement by a same-size same-mtime copy); construction on a directory, /dev/null, a FIFO and a socket, and with metadata describing a socket / symlink / directory; one entity streamed 1..6 times, then truncated, then written back completely (files of 1 .. 200001 bytes); sequences of ranges on one entity beginning with the tail of the file, and tail-first multi-range requests through serve; sparse files of 70 MiB - 2 GiB streamed completely (thousands of consecutive full reads); 16 tasks streaming unaligned ranges of one shared entity concurrently. Non-trivial = distinct case judged (bytes compared, or truncation answered by an error within range-length+8 ready polls)", c18_sizes(ctx))
     }
     fn n_blocks(&self, ctx: &Ctx) -> usize {
         c18_sizes(ctx).len() * 4 + 1 + if ctx.leg.slow() { 1 } else { 16 + 3 + 2 }
